@@ -275,6 +275,12 @@ def check(prop, tier, seed):
         return multi_check(prop, tier, seed)
     if prop == "C18":
         return c18_check(prop, tier, seed)
+    if prop == "C20":
+        # collections carry their arena with them: the vec engine's cross-arena section counts too
+        table = dict(B.MISMATCH_PROPS)
+        table.update(B.VEC_MISMATCH_PROPS)
+        return engine_check(prop, tier, seed, B.multi_run([B.arena_run, B.vec_run]), table,
+                            ARENA_ASSUMPTIONS + VEC_ASSUMPTIONS, "arena_driver", "arena_check")
     if prop == "C17":
         # Box<[T]> is also produced by the Vec conversions and collect_in: the vec engine's reports count
         table = dict(B.BOX_MISMATCH_PROPS)
